@@ -140,13 +140,13 @@ def gen_program(seed, cfg, extra_fns=True):
     return g, p
 
 
-def choose_calls(rng, g, p, cfg):
+def choose_calls(rng, g, p, cfg, many=False):
     """per non-main function: list of argument tuples"""
     calls = {}
     for f in p['fns']:
         if f['name'] == 0:
             continue
-        n = rng.choice([1, 1, 2, 2, 3])
+        n = 3 if many else rng.choice([1, 1, 2, 2, 3])
         calls[f['name']] = [[arg_for(rng, t, cfg) for (_, t) in f['params']] for _ in range(n)]
     return calls
 
@@ -221,9 +221,12 @@ SHAPES = ['plain', 'plain', 'direct', 'for', 'while', 'nested']
 
 
 def shadow_body(rng, g, f, arglists, expected, shape=None):
-    """statements of f's shadow block; every assertion is true under the reference semantics"""
-    ss = []
+    """statements of f's shadow tests, one GROUP (list of statements) per call; every assertion is true under the reference
+    semantics.  Groups are self-contained, so they can be spread over several shadow blocks of the same function."""
+    groups = []
     for args, exp in zip(arglists, expected):
+        ss = []
+        groups.append(ss)
         c = ('call', f['name'], args)
         sh = shape or rng.choice(SHAPES)
         if f['ret'] == 'void':
@@ -262,10 +265,19 @@ def shadow_body(rng, g, f, arglists, expected, shape=None):
             r = g.fresh()
             ss += [('let', False, r, f['ret'], c),
                    ('if', ('bool', True), ('if', ('bin', 'eq', ('var', r), ('var', r)), ('assert', ('bin', 'eq', ('var', r), lit_of(exp))), ('print', True, ('num', -1))), ('skip',))]
-    return ss
+    return groups
 
 
 MUTATIONS = ['none', 'first', 'last', 'loop', 'after-passing', 'last-block', 'many', 'main-block', 'all']
+# a function with SEVERAL shadow blocks: the false assertion sits in the first / a middle / the last of them and nowhere else;
+# a shadow block (in the compiled file) for a function IMPORTED from another module holds the only false assertion
+LAYOUT_MUTATIONS = ['multi-first', 'multi-middle', 'multi-last', 'imported-block']
+
+
+def bname(b):
+    """function a shadow block belongs to; block ids: n (the first block of function n) or (n, k) (further blocks)"""
+    return b if isinstance(b, int) else b[0]
+
 
 
 def falsify(a):
@@ -279,8 +291,8 @@ def falsify(a):
     return ('assert', ('bin', e[1], e[2], ('num', wrong(lit[1]))))
 
 
-def mutate(rng, order, shadows, mode):
-    """order: test names in source order; shadows: name -> stmt list.  Returns (new shadows, list of (test, site-index) falsified)"""
+def mutate(rng, order, shadows, mode, imported=()):
+    """order: block ids in source order; shadows: block id -> stmt list.  Returns (new shadows, list of (block, site-index) falsified)"""
     sites = []      # (name, k-th assertion site in that test, in_loop)
     for n in order:
         k = [0]
@@ -299,8 +311,23 @@ def mutate(rng, order, shadows, mode):
         visit(seq(shadows[n]), False)
     if not sites or mode == 'none':
         return shadows, []
-    nonmain = [s for s in sites if s[0] != 0]
+    nonmain = [s for s in sites if bname(s[0]) != 0]
     pick = []
+    if mode.startswith('multi-'):
+        per = collections.OrderedDict()
+        for b in order:
+            per.setdefault(bname(b), []).append(b)
+        multi = [bs for n, bs in per.items() if len(bs) >= 2 and n != 0]
+        if mode == 'multi-middle':
+            multi = [bs for bs in multi if len(bs) >= 3] or multi
+        if multi:
+            bs = rng.choice(multi)
+            b = bs[0] if mode == 'multi-first' else bs[-1] if mode == 'multi-last' else bs[len(bs) // 2] if len(bs) >= 3 else bs[0]
+            c = [s for s in sites if s[0] == b]
+            pick = [rng.choice(c)] if c else []
+    elif mode == 'imported-block':
+        c = [s for s in sites if bname(s[0]) in imported]
+        pick = [rng.choice(c)] if c else []
     if mode == 'first':
         pick = [sites[0]]
     elif mode == 'last':
@@ -317,7 +344,7 @@ def mutate(rng, order, shadows, mode):
     elif mode == 'many':
         pick = [s for s in sites if rng.random() < 0.4] or [rng.choice(sites)]
     elif mode == 'main-block':
-        pick = [s for s in sites if s[0] == 0][:1]
+        pick = [s for s in sites if bname(s[0]) == 0][:1]
     elif mode == 'all':
         pick = list(sites)
     pickset = {(n, k) for (n, k, _) in pick}
@@ -328,7 +355,7 @@ def mutate(rng, order, shadows, mode):
             i = k[0]; k[0] += 1
             return falsify(a) if (n, i) in pickset else a
         out[n] = flat(map_asserts(seq(shadows[n]), f))
-    return out, sorted(pickset)
+    return out, sorted(pickset, key=repr)
 
 
 def a_program(p, order, shadows):
@@ -349,9 +376,133 @@ def a_program(p, order, shadows):
     return dict(globals=p['globals'], fns=fns, main=0)
 
 
-def sprog_sexp(p, order, shadows, skip=()):
-    shs = ' '.join('(sh %x %d %s)' % (n, 1 if n in skip else 0, progen.stmt_sexp(seq(shadows[n]))) for n in order)
-    return '(sprog %s (shadows %s))' % (progen.to_sexp(p), shs)
+def sprog_sexp(p, order, shadows, skip=(), imported=()):
+    shs = ' '.join('(sh %x %d %s)' % (bname(n), 1 if n in skip else 0, progen.stmt_sexp(seq(shadows[n]))) for n in order)
+    imp = (' (imported %s)' % ' '.join('%x' % n for n in imported)) if imported else ''
+    return '(sprog %s (shadows %s)%s)' % (progen.to_sexp(p), shs, imp)
+
+
+# ------------------------------------------------------------------------------------------ source layout
+MODULE_FILE = 'mod.nano'
+
+
+def render_fn(f, st, pub=False):
+    out = ['%sfn %s(%s) -> %s {' % ('pub ' if pub else '', progen.fname(f['name']),
+                                    ', '.join('%s: %s' % (progen.vname(x), progen.tyname(t)) for (x, t) in f['params']), progen.tyname(f['ret']))]
+    out += progen.stmt_nano(f['body'], st, 1)
+    out.append('}')
+    return out
+
+
+def render_block(name, stmts, st):
+    out = ['shadow %s {' % progen.fname(name)]
+    for s_ in stmts:
+        out += progen.stmt_nano(s_, st, 1)
+    if not stmts:
+        out.append('    assert true')
+    out.append('}')
+    return out
+
+
+def render_main(p, items, shadows, st, imported=()):
+    """the compiled file: import line, constants, then functions and shadow blocks in the order of [items]"""
+    byname = {f['name']: f for f in p['fns']}
+    out = []
+    if imported:
+        out.append('from "%s" import %s' % (MODULE_FILE, ', '.join(progen.fname(n) for n in imported)))
+    for (g, t, e) in p['globals']:
+        out.append('let %s: %s = %s' % (progen.vname(g), progen.tyname(t), progen.expr_nano(e, st)))
+    for kind, x in items:
+        out += render_fn(byname[x], st) if kind == 'fn' else render_block(bname(x), shadows[x], st)
+    return '\n'.join(out) + '\n'
+
+
+def render_module(p, imported, st):
+    """the imported module: the functions as `pub fn`, each with a (true) shadow block of its own -- which nanoc does not run
+    when the module is imported"""
+    byname = {f['name']: f for f in p['fns']}
+    out = []
+    for n in imported:
+        out += render_fn(byname[n], st, pub=True)
+        out += render_block(n, [('assert', ('bool', True))], st)
+    return '\n'.join(out) + '\n'
+
+
+def calls_in(x, acc):
+    if isinstance(x, tuple):
+        if x and x[0] == 'call':
+            acc.add(x[1])
+        for y in x:
+            calls_in(y, acc)
+    elif isinstance(x, list):
+        for y in x:
+            calls_in(y, acc)
+    return acc
+
+
+def vars_in(x, acc):
+    if isinstance(x, tuple):
+        if x and x[0] == 'var':
+            acc.add(x[1])
+        for y in x:
+            vars_in(y, acc)
+    elif isinstance(x, list):
+        for y in x:
+            vars_in(y, acc)
+    return acc
+
+
+def choose_imported(rng, p, prob=0.6):
+    """functions that can live in a module of their own: they read no top-level constant and call only functions of the module"""
+    gn = {g for (g, _, _) in p['globals']}
+    imp = []
+    for f in p['fns']:
+        if f['name'] == 0:
+            continue
+        if vars_in(f['body'], set()) & gn:
+            continue
+        if not (calls_in(f['body'], set()) <= set(imp) | {f['name']}):
+            continue
+        if rng.random() < prob:
+            imp.append(f['name'])
+    return imp
+
+
+PLACEMENTS = ['after', 'after', 'after', 'before', 'end', 'top']
+
+
+def layout(rng, p, blocks_of, imported=(), vary=True):
+    """blocks_of: fn name -> list of block ids (in the order they must run relative to each other).  Returns items: the source
+    order of the LOCAL functions and of every shadow block.  A block stands right after its function (the usual layout), right
+    before it, at the top of the file or at its end (far from the function); blocks of imported functions stand anywhere."""
+    items = [('fn', f['name']) for f in p['fns'] if f['name'] not in imported]
+    top, end = [], []
+    for f in p['fns']:
+        n = f['name']
+        for k, b in enumerate(blocks_of.get(n, [])):
+            pl = rng.choice(PLACEMENTS) if vary else 'after'
+            if n in imported and pl in ('after', 'before'):
+                pl = rng.choice(['top', 'end', 'mid'])
+            if pl == 'top':
+                top.append(('sh', b))
+            elif pl == 'end':
+                end.append(('sh', b))
+            elif pl == 'mid':
+                items.insert(rng.randrange(len(items) + 1), ('sh', b))
+            else:
+                i = items.index(('fn', n))
+                if pl == 'before':
+                    items.insert(i, ('sh', b))
+                else:
+                    j = i + 1
+                    while j < len(items) and items[j][0] == 'sh' and bname(items[j][1]) == n:
+                        j += 1
+                    items.insert(j, ('sh', b))
+    return top + items + end
+
+
+def order_of(items):
+    return [x for k, x in items if k == 'sh']
 
 
 def split_a_output(out):
@@ -453,11 +604,11 @@ def parse_nanoc_model(line):
     f = line.split(' ')
     if f[0] != 'exit':
         return dict(cls=f[0])
-    failed = {}
+    failed = []       # in source order; a function with several failing blocks appears several times
     fs = f[3][len('failed='):]
     for x in fs.split(','):
         if x:
-            n, c = x.split(':'); failed[int(n, 16)] = int(c)
+            n, c = x.split(':'); failed.append((int(n, 16), int(c)))
     warn = [int(x, 16) for x in f[4][len('warn='):].split(',') if x]
     return dict(cls='exit', code=int(f[1], 16), binary=f[2] == '1', failed=failed, warn=warn, stderr_failed=f[5].endswith('1'))
 
@@ -521,7 +672,7 @@ def iter_construct(rng, g, place, loop, exit_, pattern):
     return stmts, info
 
 
-def add_iter_construct(rng, g, p, order, shadows, choice=None):
+def add_iter_construct(rng, g, p, order, shadows, choice=None, items=None):
     """adds one iteration-dependent construct to the case: inside the shadow block of some function, or inside a new helper
     function that a new shadow block calls.  Returns info."""
     place, loop, exit_, pattern = choice or (rng.choice(ITER_PLACES), rng.choice(ITER_LOOPS), rng.choice(ITER_EXITS), rng.choice(ITER_PATTERNS))
@@ -537,7 +688,12 @@ def add_iter_construct(rng, g, p, order, shadows, choice=None):
         h = g.fresh()
         r = g.fresh()
         p['fns'].insert(len(p['fns']) - 1, dict(name=h, params=[], ret='int', body=seq(stmts + [('ret', ('num', HELPER_RESULT))]), effect=True))
-        order.insert(len(order) - 1 if order and order[-1] == 0 else len(order), h)
+        if items is not None:
+            i = items.index(('fn', 0))
+            items[i:i] = [('fn', h), ('sh', h)]
+            order[:] = order_of(items)
+        else:
+            order.insert(len(order) - 1 if order and order[-1] == 0 else len(order), h)
         shadows[h] = [('let', False, r, 'int', ('call', h, [])), ('assert', ('bin', 'eq', ('var', r), ('num', HELPER_RESULT)))]
         info['test'] = h
     return info
@@ -631,7 +787,7 @@ def clash_program(seed):
 
 
 # ------------------------------------------------------------------------------------------ building a batch of cases
-def build_cases(ck, nv_lang, seeds, cfg, modes, tag, drop_shadow_prob=0.0, genf=None, iter_prob=(0.0, 0.0)):
+def build_cases(ck, nv_lang, seeds, cfg, modes, tag, drop_shadow_prob=0.0, genf=None, iter_prob=(0.0, 0.0), multi_prob=0.0, import_prob=0.0):
     """Generates programs, asks the reference semantics for the values the shadow assertions expect, builds S/A/sprog.
     Returns list of Case."""
     pre = []
@@ -641,7 +797,7 @@ def build_cases(ck, nv_lang, seeds, cfg, modes, tag, drop_shadow_prob=0.0, genf=
         rng = random.Random(seed ^ 0x5bd1e995)
         if not genf and cfg.strings and rng.random() < 0.45:
             p['fns'].insert(len(p['fns']) - 1, string_function(rng, g))
-        calls = choose_calls(rng, g, p, cfg)
+        calls = choose_calls(rng, g, p, cfg, many=modes[i % len(modes)].startswith('multi-'))
         pre.append((seed, g, p, rng, calls))
     probes = [progen.to_sexp(probe_program(g, p, calls)) for (_, g, p, _, calls) in pre]
     pref = langlib.model_many(nv_lang, 'ref', probes, fuel=FUEL)
@@ -660,18 +816,35 @@ def build_cases(ck, nv_lang, seeds, cfg, modes, tag, drop_shadow_prob=0.0, genf=
         c = Case()
         c.seed, c.p, c.g, c.tag = seed, p, g, tag
         c.id = '%s-%d' % (tag, seed)
+        c.mode = modes[k % len(modes)]
         shadows = {}
-        order = []
+        blocks_of = {}
         it = iter(vals)
         for f in p['fns']:
-            order.append(f['name'])
-            if f['name'] == 0:
+            n = f['name']
+            if n == 0:
                 shadows[0] = [('assert', ('bin', 'eq', ('num', 1), ('num', 1)))]
+                blocks_of[0] = [0]
                 continue
-            exp = [next(it) for _ in calls[f['name']]]
-            shadows[f['name']] = shadow_body(rng, g, f, calls[f['name']], exp)
-        c.mode = modes[k % len(modes)]
-        shadows, picked = mutate(rng, order, shadows, c.mode)
+            exp = [next(it) for _ in calls[n]]
+            groups = shadow_body(rng, g, f, calls[n], exp)
+            # several shadow blocks for one function: the groups are dealt out, in order, over 1-3 blocks
+            want = 1
+            if multi_prob and len(groups) >= 2 and rng.random() < (0.9 if c.mode.startswith('multi-') else multi_prob):
+                want = min(len(groups), rng.choice([2, 2, 3]))
+            cuts = sorted(rng.sample(range(1, len(groups)), want - 1)) if want > 1 else []
+            parts = [groups[i:j] for i, j in zip([0] + cuts, cuts + [len(groups)])]
+            ids = [n] + [(n, q) for q in range(1, len(parts))]
+            for bid, part in zip(ids, parts):
+                shadows[bid] = [s_ for grp in part for s_ in grp]
+            blocks_of[n] = ids
+        # some functions live in an imported module (their shadow blocks stay in the compiled file)
+        c.imported = []
+        if import_prob and (c.mode == 'imported-block' or rng.random() < import_prob):
+            c.imported = choose_imported(rng, p)
+        items = layout(rng, p, blocks_of, c.imported, vary=bool(multi_prob))
+        order = order_of(items)
+        shadows, picked = mutate(rng, order, shadows, c.mode, c.imported)
         c.picked = picked
         if c.mode != 'none' and not picked:
             c.mode = 'none'
@@ -679,42 +852,71 @@ def build_cases(ck, nv_lang, seeds, cfg, modes, tag, drop_shadow_prob=0.0, genf=
         # the gate's verdict hangs on them alone
         c.iter = None
         if rng.random() < (iter_prob[0] if c.mode == 'none' else iter_prob[1]):
-            c.iter = add_iter_construct(rng, g, p, order, shadows)
-        # a function may lack its shadow block (C06: reported, does not gate)
-        c.dropped_shadows = [n for n in order if n != 0 and rng.random() < drop_shadow_prob]
-        c.order = [n for n in order if n not in c.dropped_shadows]
+            c.iter = add_iter_construct(rng, g, p, order, shadows, items=items)
+        # a LOCAL function may lack its shadow block (C06: reported, does not gate)
+        c.dropped_shadows = [n for n in blocks_of if n != 0 and n not in c.imported and rng.random() < drop_shadow_prob
+                             and not any(bname(b) == n for (b, _) in picked)]
         if c.iter and c.iter['test'] in c.dropped_shadows:
             c.iter = None
-        c.shadows = {n: shadows[n] for n in c.order}
+        c.items = [(kd, x) for (kd, x) in items if not (kd == 'sh' and bname(x) in c.dropped_shadows)]
+        c.order = order_of(c.items)
+        c.shadows = {b: shadows[b] for b in c.order}
         c.feat = dict(g.feat)
         finish_case(c)
         cases.append(c)
     return cases
 
 
+def count_layout(ck, cases):
+    """measured distribution of the shadow-block layouts of a batch"""
+    d = ck.extra.setdefault('block_layout', collections.Counter())
+    for c in cases:
+        per = collections.Counter(bname(b) for b in c.order)
+        if any(v >= 2 for v in per.values()):
+            d['cases with a function that has several shadow blocks'] += 1
+        if any(v >= 3 for v in per.values()):
+            d['cases with a function that has 3 shadow blocks'] += 1
+        if getattr(c, 'imported', None):
+            d['cases with an imported module'] += 1
+            d['shadow blocks for imported functions'] += sum(1 for b in c.order if bname(b) in c.imported)
+        items = getattr(c, 'items', [])
+        pos = {x: i for i, (kd, x) in enumerate(items) if kd == 'fn'}
+        for i, (kd, x) in enumerate(items):
+            if kd == 'sh' and bname(x) in pos:
+                d['blocks before their function' if i < pos[bname(x)] else 'blocks after their function'] += 1
+        if c.mode in LAYOUT_MUTATIONS:
+            d['mode=' + c.mode] += 1
+
+
 def finish_case(c, style='prefix'):
     p = c.p
-    src = progen.to_nano(p, style, random.Random(c.seed), shadows=c.shadows)
-    if getattr(c, 'dropped_shadows', None):
-        # to_nano writes a default block for a function without entry: remove those blocks
-        for n in c.dropped_shadows:
-            src = src.replace('shadow %s {\n    assert true\n}\n' % progen.fname(n), '')
-    c.s_src = src
-    c.order_names = [progen.fname(n) for n in c.order]
-    # source order of shadow blocks = order of the functions
+    st = progen.Style(style, random.Random(c.seed))
+    imported = list(getattr(c, 'imported', None) or [])
+    if not getattr(c, 'items', None):
+        # the usual layout: every block right after its function
+        c.items = []
+        for f in p['fns']:
+            c.items.append(('fn', f['name']))
+            c.items += [('sh', b) for b in c.order if bname(b) == f['name']]
+    c.s_src = render_main(p, c.items, c.shadows, st, imported)
+    c.mod_src = render_module(p, imported, st) if imported else None
+    c.order_names = [progen.fname(bname(n)) for n in c.order]
     ap = a_program(p, c.order, c.shadows)
     c.a_prog = ap
     c.a_src = progen.to_nano(ap, style, random.Random(c.seed))
     c.a_sexp = progen.to_sexp(ap)
-    c.sprog = sprog_sexp(p, c.order, c.shadows)
+    c.sprog = sprog_sexp(p, c.order, c.shadows, imported=imported)
     return c
 
 
-def hand_case(cid, p, shadows, order=None):
-    """case from an explicit program + shadow statement lists (witnesses, corpus)"""
+def hand_case(cid, p, shadows, order=None, items=None, imported=()):
+    """case from an explicit program + shadow statement lists (witnesses, corpus).  shadows: block id -> statements; items:
+    explicit source order [('fn', n) | ('sh', block id)]"""
     c = Case()
     c.seed, c.p, c.g, c.tag, c.id, c.mode, c.picked, c.feat = 0, p, None, 'witness', cid, 'hand', [], {}
-    c.order = order or [f['name'] for f in p['fns']]
+    c.imported = list(imported)
+    c.items = items
+    c.order = order_of(items) if items else (order or [f['name'] for f in p['fns']])
     c.shadows = {n: shadows.get(n, [('assert', ('bool', True))]) for n in c.order}
     c.dropped_shadows = []
     c.iter = None
@@ -743,6 +945,8 @@ def run_real(b, cases, tag, want_native=True):
             h = hashlib.md5(c.id.encode()).hexdigest()[:10]
             d = os.path.join(wd, h); os.makedirs(d, exist_ok=True)
             sp = os.path.join(d, 's.nano'); open(sp, 'w').write(c.s_src)
+            if getattr(c, 'mod_src', None):
+                open(os.path.join(d, MODULE_FILE), 'w').write(c.mod_src)
             outp = os.path.join(d, 's.out')
             rc, o, e = run_nanoc_verbose(b, sp, outp, d, getattr(c, 'timeout', 40))
             if rc == -9 and getattr(c, 'm_interp', {}).get('cls') != 'nofuel':
@@ -861,8 +1065,8 @@ def cmp_model(c):
                 bad.append('gate exit: model %s real %s' % (g['code'], c.r_rc))
             if g['binary'] != c.r_binary:
                 bad.append('gate binary: model %s real %s' % (g['binary'], c.r_binary))
-        realfailed = {t[4]: t[3] for t in rt if t[2] == 'FAILED'}
-        modelfailed = {progen.fname(n): k for n, k in g['failed'].items()}
+        realfailed = [(t[4], t[3]) for t in rt if t[2] == 'FAILED']
+        modelfailed = [(progen.fname(n), k) for n, k in g['failed']]
         if realfailed != modelfailed:
             bad.append('FAILED lines: model %s real %s' % (modelfailed, realfailed))
         if g['stderr_failed'] != ('Shadow tests failed' in c.r_stderr):
@@ -915,7 +1119,7 @@ def cmp_gate_fault(c, k):
 
 
 def replay_dict(c, **kw):
-    d = dict(case=c.id, mode=c.mode, iteration_dependent=getattr(c, 'iter', None), source=c.s_src, a_source=c.a_src, sprog=c.sprog, a_sexp=c.a_sexp, order=c.order_names,
+    d = dict(case=c.id, mode=c.mode, iteration_dependent=getattr(c, 'iter', None), module_source=getattr(c, 'mod_src', None), source=c.s_src, a_source=c.a_src, sprog=c.sprog, a_sexp=c.a_sexp, order=c.order_names,
              real=dict(rc=c.r_rc, binary=c.r_binary, stdout=c.r_stdout.decode('latin1')[-3000:], stderr=c.r_stderr[-1500:]),
              names_apart=c.m_apart)
     if c.r_native:
